@@ -100,6 +100,7 @@ class C01(core.Check):
                       ['CHDIR "AB:X"'], ['FILES ":"'], ['OUT &H3C5,1'], ['OUT &H3CF,1'], ['PRINT &O1 2'],
                       ['SCREEN 1', 'VIEW (10,10)-(50,50)', 'SCREEN 1,,0,0'], ['KEY ON', 'LOCATE 1,60', 'WIDTH 40'],
                       ['SCREEN 1', 'VIEW (100,100)-(200,150)', 'PRINT POINT(300,10)'], ['SCREEN 1', 'DRAW "C256 U5"'],
+                      ['OPEN "CON" FOR APPEND AS 1'], ['OPEN "R",1,"CON"'], ['OPEN "CON" FOR RANDOM AS 1 LEN=8', 'FIELD #1,2 AS A$', 'CLOSE'],
                       ['PRINT INP(&H379)'], ['OUT &H37A,1'], ['SCREEN 1', 'DEF SEG=0', 'PRINT PEEK(1126)'],
                       ['DEF SEG=&HF000', 'BSAVE "ROM.BIN",0,100', 'BLOAD "ROM.BIN"'], ['DEF SEG=&HB800', 'BSAVE "Y.BIN",65000,1000'],
                       ['DEF SEG=0', 'FOR I=1040 TO 1090:POKE I,0:X=PEEK(I):NEXT', 'FOR I=1040 TO 1090:POKE I,224:X=PEEK(I):NEXT'],
